@@ -293,6 +293,7 @@ def run_cases(fn, cases, nworkers=None, timeout=900):
     scratch_root = tempfile.mkdtemp(prefix='akvroot_')
     ex = cf.ProcessPoolExecutor(max_workers=nworkers, initializer=worker_init, initargs=(REPO, True, scratch_root))
     out = []
+    failed = False
     try:
         futs = [ex.submit(fn, c) for c in cases]
         deadline = time.time() + timeout
@@ -304,8 +305,14 @@ def run_cases(fn, cases, nworkers=None, timeout=900):
                 for p in list(getattr(ex, '_processes', {}).values()):
                     p.kill()
                 break
+            except BaseException:
+                # a failure of the harness itself (a dead model driver ...): never wait for the other workers
+                failed = True
+                for p in list(getattr(ex, '_processes', {}).values()):
+                    p.kill()
+                raise
     finally:
-        hung = any(isinstance(o, dict) and 'hang' in o for o in out)
+        hung = failed or any(isinstance(o, dict) and 'hang' in o for o in out)
         ex.shutdown(wait=not hung, cancel_futures=True)
         shutil.rmtree(scratch_root, ignore_errors=True)
     return out
@@ -388,6 +395,31 @@ def proof_gate(pid, thorough=False):
     return dict(ok=not problems, theorems=theorems, closed=closed, problems=problems,
                 checker_cmd=f'make -C coq (full .vo build) ; coqc -Q theories AK theories/Props/{pid}.v' + (' ; coqchk -o' if thorough else ''),
                 wall=time.time() - t0, transcript=r.stdout[-3000:])
+
+
+# ------------------------------------------------------------------ two working directories, real pools
+
+def two_dirs_case(pid, tool, seed):
+    """runs harness.twodirs_child in a child process (real process pools, relative paths, a chdir between two runs of
+    the same call on same-named inputs with other data) -> case result dict"""
+    out = dict(evals=1, keys=[khash('two-dirs', tool, seed)], dist={f'case=relative paths in two working directories, real pools ({tool})': 1},
+               samples=[], violations=[], disagreements=[])
+    root = scratch_dir(f"twodirs_{tool}_{seed}")
+    os.makedirs(root)
+    env = dict(os.environ, PYTHONPATH=REPO + os.pathsep + VERIF)
+    desc = dict(seed=seed, case_fn='two_dirs', tool=tool)
+    try:
+        r = subprocess.run([sys.executable, '-m', 'harness.twodirs_child', tool, str(seed), root], env=env, cwd=VERIF,
+                           capture_output=True, text=True, timeout=240)
+        lines = r.stdout.splitlines()
+        bads = [l[5:] for l in lines if l.startswith('BAD: ')]
+        if 'DONE' not in lines:
+            bads.append('the scenario died: ' + (r.stderr.strip().splitlines() or ['?'])[-1][:300])
+    except subprocess.TimeoutExpired:
+        bads = ['the scenario did not terminate within 240 s']
+    for b in bads[:3]:
+        out['violations'].append(dict(desc, kind='two-dirs', what=b))
+    return out
 
 
 # ------------------------------------------------------------------ findings
